@@ -865,78 +865,132 @@ obligations even when no sampled input or schedule shows a difference; the check
 a failing input. -/
 theorem c08_shape_tls_makeVerifier :
     Shapes.network_tls_makeVerifier =
-   ["mkNonce", "func{", "defer{", "if:(err==nil)", "else", "}", "if:(len(rawCerts)!=1)",
-     "return:xerrors.New(\"\")", "x509.ParseCertificates", "if:(err!=nil)", "return:err",
-     "if:(len(certs)!=1)", "return:xerrors.New(\"\")", "x509.NewCertPool", "self.AddCert",
-     "cert.Verify", "if:(err!=nil)", "return:xerrors.Errorf(\"\",err)", "if:(them!=nil)",
-     "if:(len(cert.URIs)>0)", "if:((u.Scheme==\"\")&&(u.Opaque==cn))", "if:!found",
-     "return:xerrors.Errorf(\"\",pubToCN(them.Public))", "else",
+   ["mkNonce", "assign:nonce:=mkNonce(suite)", "func{", "defer{", "if:(err==nil)", "else", "}",
+     "if:(len(rawCerts)!=1)", "return:xerrors.New(\"\")", "x509.ParseCertificates",
+     "assign:certs,err:=x509.ParseCertificates(rawCerts[0])", "if:(err!=nil)", "return:err",
+     "if:(len(certs)!=1)", "return:xerrors.New(\"\")", "assign:cert:=certs[0]",
+     "x509.NewCertPool", "assign:self:=x509.NewCertPool()", "self.AddCert",
+     "assign:opts:=x509.VerifyOptions{Roots:self}", "cert.Verify",
+     "assign:_,err=cert.Verify(opts)", "if:(err!=nil)", "return:xerrors.Errorf(\"\",err)",
+     "if:(them!=nil)", "if:(len(cert.URIs)>0)",
+     "assign:cn:=fmt.Sprintf(\"\",pubToCN(them.Public))", "assign:found:=false",
+     "range:_,u:=cert.URIs{", "if:((u.Scheme==\"\")&&(u.Opaque==cn))", "assign:found=true",
+     "break", "}", "if:!found", "return:xerrors.Errorf(\"\",pubToCN(them.Public))", "else",
      "if:(cert.Subject.CommonName!=pubToCN(them.Public))",
-     "return:xerrors.Errorf(\"\",cert.Subject.CommonName)", "if:oidDedisSig.Equal(x.Id)",
-     "if:(sig==nil)", "return:xerrors.New(\"\")", "pubFromCN", "if:(err!=nil)",
-     "return:xerrors.Errorf(\"\",err)", "if:((them!=nil)&&!pub.Equal(them.Public))",
-     "return:xerrors.Errorf(\"\",cn)", "bytes.NewBuffer", "asn1.Marshal", "if:(err!=nil)",
-     "return:xerrors.Errorf(\"\",err)", "buf.Write", "buf.Bytes", "schnorr.Verify",
-     "if:(err!=nil)", "return:xerrors.Errorf(\"\",err)", "return:nil", "}", "return:func,nonce"] := rfl
+     "return:xerrors.Errorf(\"\",cert.Subject.CommonName)", "range:_,x:=cert.Extensions{",
+     "if:oidDedisSig.Equal(x.Id)", "assign:sig=x.Value", "break", "}", "if:(sig==nil)",
+     "return:xerrors.New(\"\")", "assign:cn=cert.Subject.CommonName", "pubFromCN",
+     "assign:pub,err:=pubFromCN(suite,cn)", "if:(err!=nil)", "return:xerrors.Errorf(\"\",err)",
+     "if:((them!=nil)&&!pub.Equal(them.Public))", "return:xerrors.Errorf(\"\",cn)",
+     "bytes.NewBuffer", "assign:buf:=bytes.NewBuffer(nonce)", "asn1.Marshal",
+     "assign:subAsn1,err:=asn1.Marshal(cn)", "if:(err!=nil)", "return:xerrors.Errorf(\"\",err)",
+     "buf.Write", "buf.Bytes", "schnorr.Verify",
+     "assign:err=schnorr.Verify(suite,pub,buf.Bytes(),sig)", "if:(err!=nil)",
+     "return:xerrors.Errorf(\"\",err)", "return:nil", "}", "return:func,nonce"] := rfl
 
 theorem c08_shape_tls_certMaker_get :
     Shapes.network_tls_certMaker_get =
-   ["if:(len(nonce)!=nonceSize)", "return:nil,xerrors.New(\"\")", "bytes.NewBuffer", "buf.Write",
-     "si.GetPrivate", "buf.Bytes", "schnorr.Sign", "if:(err!=nil)",
-     "return:nil,xerrors.Errorf(\"\",err)", "random.New", "random.Bits", "serial.SetBytes",
-     "url.Parse", "if:(err!=nil)", "return:nil,err", "time.Now", "Now().Add", "time.Now",
-     "Now().Add", "if:testNoURIs", "k.Public", "x509.CreateCertificate", "if:(err!=nil)",
-     "return:nil,xerrors.Errorf(\"\",err)", "x509.ParseCertificates", "if:(err!=nil)",
+   ["if:(len(nonce)!=nonceSize)", "return:nil,xerrors.New(\"\")", "bytes.NewBuffer",
+     "assign:buf:=bytes.NewBuffer(nonce)", "buf.Write", "si.GetPrivate", "buf.Bytes",
+     "schnorr.Sign", "assign:sig,err:=schnorr.Sign(cm.suite,cm.si.GetPrivate(),buf.Bytes())",
+     "if:(err!=nil)", "return:nil,xerrors.Errorf(\"\",err)", "assign:serial:=new(big.Int)",
+     "random.New", "random.Bits", "assign:r:=random.Bits(128,true,random.New())",
+     "serial.SetBytes", "url.Parse",
+     "assign:uri,err:=url.Parse(fmt.Sprintf(\"\",cm.subj.CommonName))", "if:(err!=nil)",
+     "return:nil,err", "time.Now", "Now().Add", "time.Now", "Now().Add",
+     "assign:tmpl:=&x509.Certificate{BasicConstraintsValid:true,IsCA:false,ExtKeyUsage:conv{x509.ExtKeyUsageServerAuth,x509.ExtKeyUsageClientAuth},NotAfter:time.Now().Add((2*time.Hour)),NotBefore:time.Now().Add((-5*time.Minute)),SerialNumber:serial,SignatureAlgorithm:x509.ECDSAWithSHA384,Subject:cm.subj,URIs:conv{uri},ExtraExtensions:conv{{Id:oidDedisSig,Critical:false,Value:sig}}}",
+     "if:testNoURIs", "assign:tmpl.URIs=nil", "k.Public", "x509.CreateCertificate",
+     "assign:cDer,err:=x509.CreateCertificate(rand.Reader,tmpl,tmpl,cm.k.Public(),cm.k)",
+     "if:(err!=nil)", "return:nil,xerrors.Errorf(\"\",err)", "x509.ParseCertificates",
+     "assign:certs,err:=x509.ParseCertificates(cDer)", "if:(err!=nil)",
      "return:nil,xerrors.Errorf(\"\",err)", "if:(len(certs)<1)", "return:nil,xerrors.New(\"\")",
-     "return:&?,nil"] := rfl
+     "return:&tls.Certificate{PrivateKey:cm.k,Certificate:conv{cDer},Leaf:certs[0]},nil"] := rfl
 
 theorem c08_shape_tls_certMaker_getCertificate :
     Shapes.network_tls_certMaker_getCertificate =
-   ["cm.get"] := rfl
+   ["cm.get", "assign:cert,err:=cm.get(conv(hello.ServerName))", "if:(err!=nil)",
+     "return:nil,xerrors.Errorf(\"\",err)", "return:cert,nil"] := rfl
 
 theorem c08_shape_tls_certMaker_getClientCertificate :
     Shapes.network_tls_certMaker_getClientCertificate =
-   ["if:(len(req.AcceptableCAs)==0)", "return:nil,xerrors.New(\"\")", "cm.get", "if:(err!=nil)",
+   ["if:(len(req.AcceptableCAs)==0)", "return:nil,xerrors.New(\"\")", "cm.get",
+     "assign:cert,err:=cm.get(req.AcceptableCAs[0])", "if:(err!=nil)",
      "return:nil,xerrors.Errorf(\"\",err)", "return:cert,nil"] := rfl
 
 theorem c08_shape_tls_pubFromCN :
     Shapes.network_tls_pubFromCN =
-   ["if:(len(cn)<1)", "return:nil,xerrors.New(\"\")", "hex.DecodeString", "if:(err!=nil)",
-     "return:nil,xerrors.Errorf(\"\",err)", "bytes.NewBuffer", "suite.Point",
-     "pub.UnmarshalFrom", "if:(err!=nil)", "return:nil,xerrors.Errorf(\"\",err)",
-     "return:pub,nil", "encoding.StringHexToPoint", "if:(err!=nil)",
-     "return:nil,xerrors.Errorf(\"\",err)", "return:pub,nil"] := rfl
+   ["if:(len(cn)<1)", "return:nil,xerrors.New(\"\")", "assign:tp:=cn[0]", "switch:tp{",
+     "case:'Z'", "hex.DecodeString", "assign:buf,err:=hex.DecodeString(cn[1:])", "if:(err!=nil)",
+     "return:nil,xerrors.Errorf(\"\",err)", "bytes.NewBuffer", "assign:r:=bytes.NewBuffer(buf)",
+     "suite.Point", "assign:pub:=suite.Point()", "pub.UnmarshalFrom",
+     "assign:_,err=pub.UnmarshalFrom(r)", "if:(err!=nil)", "return:nil,xerrors.Errorf(\"\",err)",
+     "return:pub,nil", "default", "encoding.StringHexToPoint",
+     "assign:pub,err:=encoding.StringHexToPoint(suite,cn)", "if:(err!=nil)",
+     "return:nil,xerrors.Errorf(\"\",err)", "return:pub,nil", "}"] := rfl
 
 theorem c08_shape_tls_pubToCN :
     Shapes.network_tls_pubToCN =
-   ["pub.MarshalTo", "w.Bytes", "hex.EncodeToString"] := rfl
+   ["assign:w:=&bytes.Buffer{}", "pub.MarshalTo", "return:(\"\"+hex.EncodeToString(w.Bytes()))"] := rfl
 
 theorem c08_shape_tls_mkNonce :
     Shapes.network_tls_mkNonce =
-   ["s.RandomStream", "random.Bytes", "bytes.ContainsAny", "s.RandomStream", "random.Bytes"] := rfl
+   ["s.RandomStream", "random.Bytes", "for:bytes.ContainsAny(buf[:],\"\"){", "s.RandomStream",
+     "random.Bytes", "}", "return:buf[:]"] := rfl
+
+theorem c08_shape_tls_newCertMaker :
+    Shapes.network_tls_newCertMaker =
+   ["assign:cm:=&certMaker{si:si,suite:s}", "elliptic.P256", "ecdsa.GenerateKey",
+     "assign:k,err:=ecdsa.GenerateKey(elliptic.P256(),rand.Reader)", "if:(err!=nil)",
+     "return:nil,xerrors.Errorf(\"\",err)", "assign:cm.k=k", "pubToCN",
+     "assign:cm.subj=pkix.Name{CommonName:pubToCN(cm.si.Public)}", "asn1.Marshal",
+     "assign:der,err:=asn1.Marshal(cm.subj.CommonName)", "if:(err!=nil)",
+     "return:nil,xerrors.Errorf(\"\",err)", "assign:cm.subjDer=der", "return:cm,nil"] := rfl
 
 theorem c08_shape_tls_NewTLSListenerWithListenAddr :
     Shapes.network_tls_NewTLSListenerWithListenAddr =
-   ["NewTCPListenerWithListenAddr", "tlsConfig", "cloneTLSClientConfig", "x509.NewCertPool",
-     "makeVerifier", "ClientCAs.AddCert", "tls.NewListener"] := rfl
+   ["NewTCPListenerWithListenAddr",
+     "assign:tcp,err:=NewTCPListenerWithListenAddr(si.Address,suite,listenAddr)",
+     "if:(err!=nil)", "return:nil,xerrors.Errorf(\"\",err)", "tlsConfig",
+     "assign:cfg,err:=tlsConfig(suite,si)", "if:(err!=nil)",
+     "return:nil,xerrors.Errorf(\"\",err)", "cloneTLSClientConfig",
+     "assign:cfg2:=cloneTLSClientConfig(cfg)", "x509.NewCertPool",
+     "assign:cfg2.ClientCAs=x509.NewCertPool()", "makeVerifier",
+     "assign:vrf,nonce:=makeVerifier(suite,nil)", "assign:cfg2.VerifyPeerCertificate=vrf",
+     "ClientCAs.AddCert", "return:cfg2,nil", "assign:cfg.GetConfigForClient=func",
+     "assign:cfg.ClientAuth=tls.RequireAnyClientCert", "tls.NewListener",
+     "assign:tcp.listener=tls.NewListener(tcp.listener,cfg)", "return:tcp,nil"] := rfl
 
-theorem c08_shape_tls_NewTLSConn :
-    Shapes.network_tls_NewTLSConn =
-   ["Address.ConnType", "us.GetPrivate", "tlsConfig", "makeVerifier", "Address.NetworkAddress",
-     "tls.DialWithDialer", "time.Sleep"] := rfl
+theorem c08_shape___tls_NewTLSConn :
+    Shapes.network___tls_NewTLSConn =
+   ["if:(them.Address.ConnType()!=TLS)", "return:nil,xerrors.New(\"\")",
+     "if:(us.GetPrivate()==nil)", "return:nil,xerrors.New(\"\")", "tlsConfig",
+     "assign:cfg,err:=tlsConfig(suite,us)", "if:(err!=nil)",
+     "return:nil,xerrors.Errorf(\"\",err)", "makeVerifier",
+     "assign:vrf,nonce:=makeVerifier(suite,them)", "assign:cfg.VerifyPeerCertificate=vrf",
+     "Address.NetworkAddress", "assign:netAddr:=them.Address.NetworkAddress()", "assign:i:=1",
+     "for:(i<=MaxRetryConnect){", "assign:cfg.ServerName=string(nonce)", "tls.DialWithDialer",
+     "assign:c,err=tls.DialWithDialer(&net.Dialer{Timeout:dialTimeout},\"\",netAddr,cfg)",
+     "if:(err==nil)", "assign:conn=&TCPConn{conn:c,suite:suite}", "return:",
+     "assign:err=xerrors.Errorf(\"\",err)", "if:(i<MaxRetryConnect)", "time.Sleep", "assign:i++",
+     "}", "if:(err==nil)", "assign:err=xerrors.Errorf(\"\",ErrTimeout)", "return:"] := rfl
 
 theorem c08_shape_tls_tlsConfig :
     Shapes.network_tls_tlsConfig =
-   ["newCertMaker"] := rfl
+   ["newCertMaker", "assign:cm,err:=newCertMaker(suite,us)", "if:(err!=nil)",
+     "return:nil,xerrors.Errorf(\"\",err)",
+     "return:&tls.Config{GetCertificate:cm.getCertificate,GetClientCertificate:cm.getClientCertificate,InsecureSkipVerify:true},nil"] := rfl
 
 theorem c08_shape_router_Router_receiveServerIdentity :
     Shapes.network_router_Router_receiveServerIdentity =
-   ["c.Receive", "if:(err!=nil)", "return:nil,xerrors.Errorf(\"\",err)",
-     "if:(nm.MsgType!=ServerIdentityType)",
-     "return:nil,xerrors.Errorf(\"\",nm.MsgType.String())", "if:ok", "if:ok",
-     "tlsConn.ConnectionState", "if:(len(cs.PeerCertificates)==0)",
-     "return:nil,xerrors.New(\"\")", "pubFromCN", "if:(err!=nil)",
-     "return:nil,xerrors.Errorf(\"\",err)", "if:!pub.Equal(dst.Public)",
+   ["c.Receive", "assign:nm,err:=c.Receive()", "if:(err!=nil)",
+     "return:nil,xerrors.Errorf(\"\",err)", "if:(nm.MsgType!=ServerIdentityType)",
+     "return:nil,xerrors.Errorf(\"\",nm.MsgType.String())",
+     "assign:dst:=nm.Msg.(ServerIdentity)", "assign:tcpConn,ok:=c.(TCPConn)", "if:ok",
+     "assign:tlsConn,ok:=tcpConn.conn.(tls.Conn)", "if:ok", "tlsConn.ConnectionState",
+     "assign:cs:=tlsConn.ConnectionState()", "if:(len(cs.PeerCertificates)==0)",
+     "return:nil,xerrors.New(\"\")", "pubFromCN",
+     "assign:pub,err:=pubFromCN(tcpConn.suite,cs.PeerCertificates[0].Subject.CommonName)",
+     "if:(err!=nil)", "return:nil,xerrors.Errorf(\"\",err)", "if:!pub.Equal(dst.Public)",
      "return:nil,xerrors.New(\"\")", "else", "if:!r.UnauthOk", "return:dst,nil"] := rfl
 
 
